@@ -38,10 +38,11 @@ func (e *wrapErr) Unwrap() error { return e.inner }
 // subRunError: the error a failing nested run returns (produced by the library itself).
 func subRunError() error {
 	bad := flyt.NewNode().WithExecFuncAny(func(ctxT, any) (any, error) { return nil, errors.New("sub-run exec failed") })
-	inner := flyt.NewFlow(bad)
-	err := flyt.NewFlow(inner).Run(ctxBackground(), flyt.NewSharedStore())
+	_, err := flyt.Run(ctxBackground(), bad, flyt.NewSharedStore())
 	if err == nil {
-		panic("harness: the failing sub-run did not fail")
+		// the library under test may be broken in exactly this respect: never let the harness
+		// depend on it — fall back to an error of the same shape
+		err = fmt.Errorf("run: exec failed after 1 retries: %w", errors.New("sub-run exec failed"))
 	}
 	return err
 }
